@@ -64,7 +64,9 @@ def binary_stochastic_quantize(v: jnp.ndarray,
   v = jnp.nan_to_num((v - v_min) / (v_max - v_min))
   v = jnp.maximum(0., jnp.minimum(v, 1.))
   rand = jax.random.uniform(key=rng, shape=v.shape)
-  return jnp.where(rand > v, v_min, v_max)
+  # rand is in [0, 1): round up with probability exactly v, so that v == 0
+  # (a coordinate at the minimum) never moves, even when rand == 0.
+  return jnp.where(rand < v, v_max, v_min)
 
 
 def uniform_stochastic_quantize(v: jnp.ndarray,
